@@ -222,6 +222,14 @@ def judge_freeze(ctx, spec, rng):
             continue
         setattr(m, k, v)
         ctx.check('no aliasing after copy/freeze/thaw', same(f, sf), f'alias:orig->frozen:{key}', lambda: case(k), None)
+    # first some calls on frozen objects that FAIL (invalid overrides to copy(), invalid arguments to the frozen
+    # constructors): whatever they leave behind, frozen messages go on rejecting every mutation
+    for k, v in invalid_values(spec)[:6]:
+        for thunk in (lambda: f.copy(**{k: v}), lambda: type(f)(*( [spec[1]] if spec[0] != 'unk' else [spec[1], spec[2]]), **{k: v})):
+            try:
+                thunk()
+            except Exception:
+                pass
     # frozen rejects every mutation
     for k, v in list(vv.items()) + [('type', f.type), ('bogus', 1)]:
         try:
@@ -387,6 +395,11 @@ def unknown_meta_variants(ctx):
                 fresh = MetaMessage(m.type, data=m.data, time=7)
             ctx.check('copy(**ov) == fresh construction', c7 == fresh and vars(c7) == vars(fresh), f'variant-copy-time:{label}', case,
                       lambda: {'copy': repr(vars(c7)), 'fresh': repr(vars(fresh))})
+            if label == 'seqspec-default':
+                fresh_default = MetaMessage('sequencer_specific', time=7)
+                ctx.check('copy(**ov) == fresh construction', c7 == fresh_default and type(vars(c7)['data']) is type(vars(fresh_default)['data']),
+                          'variant-copy-time-vs-fresh-default', case,
+                          lambda: {'copy': repr(vars(c7)), 'fresh': repr(vars(fresh_default))})
             c.time = 99
             ctx.check('original unchanged', same(m, before), f'variant-original-changed:{label}', case, repr(vars(m)))
             f, f2 = freeze_message(m), freeze_message(m.copy())
